@@ -124,10 +124,20 @@ func (m *RawManager) AddNode(node *RawNode) error {
 		}
 	}
 
+	// check again, in the same critical section as the insertion: another
+	// goroutine may have added a node with this ID since the check above.
 	m.mu.Lock()
-	defer m.mu.Unlock()
-	m.lookup[node.id] = node
-	m.nodes = append(m.nodes, node)
+	_, found := m.lookup[node.id]
+	if !found {
+		m.lookup[node.id] = node
+		m.nodes = append(m.nodes, node)
+	}
+	m.mu.Unlock()
+	if found {
+		// stop the goroutines and connection started by connect above
+		_ = node.close()
+		return fmt.Errorf("config: node %d (%s) already exists", node.ID(), node.Address())
+	}
 	return nil
 }
 
